@@ -72,7 +72,7 @@ Proof. vm_compute. repeat split; reflexivity. Qed.
                     database's cache represents a specification database (`Rep`: catalog well-formed,
                     rows decode with the right width) and the selected name, if any, exists.
    stmt_bounded   : boolean hypothesis on the statement st ITSELF, evaluated in the selected cache
-                    (SessionStore.np_hyp): CREATE TABLE column names pairwise distinct; INSERT / UPDATE
+                    (SessionStore.np_hyp): INSERT / UPDATE
                     literals are Go values (int64, strings < 4 GiB: the model's Z / string are unbounded);
                     CREATE TABLE / INSERT leave the file below 2^63 bytes. NOTHING is assumed for DELETE,
                     SELECT, CREATE DATABASE, USE, SHOW DATABASES, nor about table / column names, column
